@@ -3,18 +3,9 @@
    count-min / heavy-hitter sketch (seed = row index) never apply the same function. *)
 From Coq Require Import ZArith List Lia Bool String.
 From Sketchnu Require Import Machine BitLemmas Consts Hashes HashSpec HashProofs.
+From Sketchnu Require Export HashBucket.
 Import ListNotations.
 Open Scope Z_scope.
-
-(* column used by row r for key k in every kernel: fasthash64(key, row) % width *)
-Definition hash_bucket (width : nat) (r : nat) (k : key) : nat :=
-  Z.to_nat (fasthash64 k (Z.of_nat r) mod Z.of_nat width).
-
-Lemma hash_bucket_lt width r k : (0 < width)%nat -> Z.of_nat r < 2^64 -> (hash_bucket width r k < width)%nat.
-Proof.
-  intros Hw Hr. unfold hash_bucket.
-  pose proof (Z.mod_pos_bound (fasthash64 k (Z.of_nat r)) (Z.of_nat width) ltac:(lia)). lia.
-Qed.
 
 Definition R64 (x : Z) : Prop := 0 <= x < 2^64.
 
@@ -137,13 +128,6 @@ Theorem rows_differ k (r1 r2 : nat) : bytes k -> zlen k < 2^64 ->
   fasthash64 k (Z.of_nat r1) <> fasthash64 k (Z.of_nat r2).
 Proof.
   intros Hb Hl H1 H2 Hne E. apply fasthash64_seed_inj in E; try assumption; unfold R64; lia.
-Qed.
-
-(* the column is below width for every row index (the reduction modulo width does it) *)
-Lemma hash_bucket_lt_all width r k : (0 < width)%nat -> (hash_bucket width r k < width)%nat.
-Proof.
-  intros Hw. unfold hash_bucket.
-  pose proof (Z.mod_pos_bound (fasthash64 k (Z.of_nat r)) (Z.of_nat width) ltac:(lia)). lia.
 Qed.
 
 (* rowhash_sites_ok (the row-hash expression read from the source) lives in RowHashSites.v, so that a changed row hash
